@@ -644,3 +644,54 @@ def no_reentry(rep, rule, mod):
                   {'re-entrant storage writer called while local references into '
                    'the storage are live': sorted(set(bad))[:3]},
                   construct='no-reentry', node=f)
+
+
+def register_same_value(rep, rule, mod):
+    """register(): the no-op guard compares the stored value with the new one by
+    identity; the identical object is not registered again (no store, no
+    changed()), anything else is stored under the probed key"""
+    import ast
+    reg = find_def(mod, 'BaseAdapterRegistry.register')
+    from . import sem as _sem
+    probs = []
+    kinds = set()
+    for ps in _sem.normal(_sem.summaries(reg)):
+        if ps.facts.get('value is None') is True:
+            continue
+        guards = []
+        for c, t, p in ps.order:
+            try:
+                e = ast.parse(c, mode='eval').body
+            except SyntaxError:
+                continue
+            if isinstance(e, ast.Compare) and len(e.ops) == 1:
+                sides = [e.left, e.comparators[0]]
+                if any(isinstance(x, ast.Name) and x.id == 'value' for x in sides):
+                    o = [x for x in sides if not (isinstance(x, ast.Name) and x.id == 'value')]
+                    if len(o) == 1 and isinstance(o[0], ast.Call) and \
+                            isinstance(o[0].func, ast.Attribute) and o[0].func.attr == 'get':
+                        guards.append((type(e.ops[0]).__name__, t, _sem.nt(o[0])))
+        stores = [e for e in ps.stores() if isinstance(e.r, ast.Subscript)
+                  and _sem.nt(e.val) == 'value']
+        if not guards:
+            probs.append('the stored value is not compared with the new one')
+            continue
+        op, same, probe = guards[-1]
+        if op != 'Is':
+            probs.append('no-op guard compares the stored value with the new one by %s '
+                         '(required: identity, `is`)' % op)
+            continue
+        kinds.add(same)
+        if same and (stores or [e for e in ps.events if e.kind == 'call' and
+                                _sem.nt(e.r.func) == 'self.changed']):
+            probs.append('the identical value is registered again')
+        if not same and not [e for e in stores
+                             if '%s.get(%s)' % (_sem.nt(e.r.value), _sem.nt(e.r.slice)) == probe]:
+            probs.append('a different value is not stored under the probed key')
+    if kinds != {True, False}:
+        probs.append('guard outcomes seen: %s' % sorted(kinds))
+    rep.check(rule, 'BaseAdapterRegistry.register', not probs,
+              'registering the very object that is stored (identity) is a no-op; '
+              'anything else is stored under the probed key'
+              if not probs else {'problems': sorted(set(probs))[:3]},
+              construct='same-value', node=reg)
